@@ -147,10 +147,12 @@ def rule_decl_refix(chk, prefix="C04.refix/decl", crate="rssl_hlsl"):
     locs = {}
     for st in (f.variants("LocalStorage", "rssl_ir") or []):
         bad = None
-        for pr in (False, True):
-            for c in (False, True):
-                r = d.local(st, pr, c)
-                what = "a %s%s%s local" % ("static " if st == "Static" else "", "precise " if pr else "", "const " if c else "")
+        for pr, c, arr, ini in [(pr_, c_, False, None) for pr_ in (False, True) for c_ in (False, True)] + [(False, c_, arr_, ini_) for c_ in (False, True) for arr_ in (False, True)
+                                                                                                         for ini_ in ("expression", "aggregate") if arr_ or ini_ == "expression"]:
+            if True:
+                r = d.local(st, pr, c, arr, ini)
+                what = "a %s%s%s%slocal%s" % ("static " if st == "Static" else "", "precise " if pr else "", "const " if c else "", "array " if arr else "",
+                                              " with %s initialiser" % ("an aggregate" if ini == "aggregate" else "an expression") if ini else "")
                 if unread(r) or (r[0] == "Ok" and hl and unread(r[2])):
                     chk.unreadable(prefix + "/local/readable", "generate_variable_definition / parse_localtype on the declaration model", (r[1] if unread(r) else r[2][1]), where(d.gen_local))
                     return False
@@ -261,6 +263,8 @@ def run(chk):
     rule_reg(chk)
     rule_refix(chk)
     rule_decl_refix(chk)
+    import c01
+    c01.rule_intrinsic(chk, "C04")      # an intrinsic is exported under a name the front end declares with the same parameter lists
     import c09
     import c15
     import interp as I
